@@ -45,7 +45,7 @@ def model(c, runs):
                              cfg=cfg_text(constants=dict(BASE, OpsA={"sendall", "sendall_err"}, OpsB={"recv", "recv_err"}, W0=w, MaxPkt=p,
                                                          PeerMax=p, Thresh=t, SendN=w + 1, ReadSizes={2}, MaxCalls=1,
                                                          Modes={"block", "timed", "nonblock"}), invariants=INVS)))
-    res = dc.mc_batch(c, jobs)
+    res = dc.mc_batch(c, jobs, parallel=12)
     gen = dict(GEN, **dc.gen_variant())
     behs = res["simulate (spec -> code)"].printed("BEH")
     if not behs:
